@@ -63,7 +63,7 @@ def cases(tier, seed):
         out.append({"h": "H02c", "kind": "field", "field": fld})
     for kind in ("v4ep", "v4mc", "v4sd", "v6ep", "v6mc", "v6sd", "loadbal", "unknown0", "unknown2", "unknown4"):
         out.append({"h": "H02d", "kind": kind})
-    for shape in (["k"], ["kv"], ["k", "kv"], ["kv", "kv"], ["k=v=", "k"]):
+    for shape in (["k"], ["kv"], ["k", "kv"], ["kv", "kv"], ["k=v=", "k"], ["k="], ["k=", "kv"]):
         out.append({"h": "H02d", "kind": "config", "shape": shape})
     for ln in (254, 255, 256):
         out.append({"h": "H02d", "kind": "configlen", "len": ln})
@@ -313,6 +313,8 @@ def h02d(E, M, case):
                 cfgs.append((_sym_ascii(E, "k%d_" % j, 2, no_eq=True), None))
             elif sh == "kv":
                 cfgs.append((_sym_ascii(E, "k%d_" % j, 2, no_eq=True), _sym_ascii(E, "v%d_" % j, 2)))
+            elif sh == "k=":
+                cfgs.append((_sym_ascii(E, "k%d_" % j, 2, no_eq=True), ""))
             else:
                 cfgs.append((_sym_ascii(E, "k%d_" % j, 1, no_eq=True), "v=" + "x"))
         opt = hdr.SOMEIPSDConfigOption(configs=tuple(cfgs))
